@@ -74,7 +74,7 @@ def _run(only):
     json.dump(sorted(old.values(), key=lambda r: r["name"]), open(res_p, "w"), indent=1)
     with open(os.path.join(HERE, "seeded", "README.md"), "w") as fh:
         fh.write("# Seeded changes and the checks that catch them\n\nEach directory holds `patch.diff` (never committed to /repo), the sub-agent's demonstration and `meta.json`.\n"
-                 "Regenerate with `tools/run_seeded.py` (applies each patch to /repo, runs the property's check, undoes it).\n\n| seeded change | property | outcome of `./check` | violated assertion labels | s |\n|---|---|---|---|---|\n")
+                 "Regenerate with `tools/run_seeded.py` (applies each patch to the scratch worktree /tmp/vf_seeded_wt of /repo HEAD, runs the property check on it through VF_REPO, resets it; /repo itself is never touched).\n\n| seeded change | property | outcome of `./check` | violated assertion labels | s |\n|---|---|---|---|---|\n")
         for r in sorted(old.values(), key=lambda r: r["name"]):
             fh.write("| %s | %s | %s | %s | %s |\n" % (r["name"], r["property"], r["verdict"], r["labels"], r["seconds"]))
 
